@@ -189,6 +189,11 @@ class _InMemoryResult(Result):
       self, dna_fn: Callable[[], geno.DNA], group_id: str) -> Trial:
     """Appends a trial to the result."""
     with self._lock:
+      # Co-workers of the same group share the pending trial: re-check under
+      # the lock, as another worker of the group may have just created it.
+      latest = self._latest_trial_per_group.get(group_id, None)
+      if latest is not None and latest.status == 'PENDING':
+        return latest
       if (self._max_num_trials is not None
           and self.next_trial_id() > self._max_num_trials):
         raise StopIteration()
